@@ -192,13 +192,14 @@ pub fn run(ctx: &Ctx) -> Report {
     let seed = ctx.seed;
     let mut notes = vec![];
     for sp in &spaces {
+        let t_space = std::time::Instant::now();
         let acc = par_for(ctx, sp.total, 256, |i| { let (p, e) = sp.at(i); format!("prog={} env={}", p.hex(), e.hex()) }, |i, acc| {
             let (p, e) = sp.at(i);
             check_case(&p, &e, acc, &sp.name);
             acc.inc("programs");
             acc.maybe_sample(sample_key(seed, i ^ fnv(sp.name.as_bytes())), || json!({"space": sp.name, "prog": p.hex(), "env": e.hex()}));
         });
-        notes.push(json!({"space": sp.name, "programs": sp.total}));
+        notes.push(json!({"space": sp.name, "wall_s": t_space.elapsed().as_secs_f64(), "programs": sp.total}));
         rep.absorb(acc);
     }
     // repository programs
